@@ -14,10 +14,14 @@ def run(chk):
                 "end-tag comment / same-line content / full rewrite); every block carries an always-violated rule so "
                 "selection is visible in the report; non-trivial = some block with a MUST/MUSTNOT verdict")
     chk.exhaustive = True
-    cfg = rc.set_consts("MC_C01", MaxOps=5 if quick else 6, MaxBlocks=1 if quick else 2)
-    res = vlib.run_tlc("MC_C01", cfg_text=cfg, timeout=3000, heap="16g")
-    chk.add_tlc(res, "MC_C01 (DiffTouch)")
-    dt.replay(chk, res.cases, "C02", cli_sample=200 if quick else 2000)
+    # exhaustive bounds: quick (5 ops, 1 block); thorough (6 ops, 1 block) and (5 ops, 2 blocks) -- (6, 2) is beyond
+    # what finishes (measured: (6,1) 1.4 M states / 155 k scripts, (5,2) 2.5 M states / 257 k scripts)
+    for (mo, mb) in ([(5, 1)] if quick else [(6, 1), (5, 2)]):
+        cfg = rc.set_consts("MC_C01", MaxOps=mo, MaxBlocks=mb)
+        res = vlib.run_tlc("MC_C01", cfg_text=cfg, timeout=6000, heap="16g")
+        chk.add_tlc(res, "MC_C01 (DiffTouch) MaxOps=%d MaxBlocks=%d" % (mo, mb))
+        dt.replay(chk, res.cases, "C02", cli_sample=200 if quick else 1500)
+        res.cases = None
     for sparse in ("FALSE", "TRUE"):
         cfgs = rc.set_consts("MC_C01sim", GenLen=10 if quick else 14, GenSparse=sparse, MaxBlocks=1 if quick else 2)
         rs = vlib.run_tlc("MC_C01", cfg_text=cfgs, timeout=3000, simulate=40 if quick else 600, depth=90, seed=(chk.seed + 1) % 100000,
